@@ -338,7 +338,8 @@ fn c19(p: &Prog, rec: &mut Rec, tier: u8) {
     let l = base_rep.max_len;
     let mut region_effect = 0;
     // --- exploration controls
-    for ctrl in 1..=8u8 {
+    let mut skip4: Option<(usize, BTreeSet<Vec<u64>>, usize)> = None;
+    for ctrl in 1..=10u8 {
         if ctrl == 5 && p.threads.len() < 2 {
             continue;
         }
@@ -402,6 +403,15 @@ fn c19(p: &Prog, rec: &mut Rec, tier: u8) {
         }
         if r.outcomes.len() < base.outcomes.len() || r.iters < base.iters {
             region_effect += 1;
+        }
+        if ctrl == 4 {
+            skip4 = Some((r.iters, r.outcomes.clone(), rep.nonexploring_entries));
+        }
+        if let (9 | 10, Some((it4, out4, ne4))) = (ctrl, &skip4) {
+            // after skip_branch() a stray explore() (or a stop_exploring()/explore() pair) must not switch exploration back on
+            if r.iters != *it4 || r.outcomes != *out4 || rep.nonexploring_entries != *ne4 {
+                rec.v("ctrl_skip_restarted", "", format!("ctrl {}: skip_branch() followed by {}explore() ran {} iterations / {} results / {} decisions with exploration off; skip_branch() alone {} / {} / {}", ctrl, if ctrl == 10 { "stop_exploring(); " } else { "" }, r.iters, r.outcomes.len(), rep.nonexploring_entries, it4, out4.len(), ne4));
+            }
         }
     }
     // --- max_branches: exactly the longest decision path is needed
